@@ -184,6 +184,7 @@ async fn read_line(s: Reader<'_>) -> Result<String, Error> {
     let sz = s.read_line(&mut buf).await.context("readline")?;
     match sz {
         0 => Err(err_msg("EOF")),
+        _ if !buf.ends_with('\n') => Err(err_msg("EOF in the middle of a line")),
         _ => Ok(buf),
     }
 }
